@@ -313,7 +313,7 @@ pub fn infozip_archive(files: &[(String, Vec<u8>)], flags: &[String]) -> Result<
         }
         let o = cmd.output().map_err(|e| format!("harness: zip: {e}"))?;
         if !o.status.success() {
-            return Err(format!("harness: zip failed: {}", String::from_utf8_lossy(&o.stderr)));
+            return Err(format!("harness: zip {flags:?} on {:?} failed ({:?}): {} {}", files.iter().map(|f| (&f.0, f.1.len())).collect::<Vec<_>>(), o.status.code(), String::from_utf8_lossy(&o.stderr), String::from_utf8_lossy(&o.stdout)));
         }
         std::fs::read(dir.join("out.zip")).map_err(|e| format!("harness: {e}"))
     })();
